@@ -19,6 +19,7 @@ import (
 	"os/exec"
 	"path/filepath"
 	"sort"
+	"strconv"
 	"strings"
 	"sync/atomic"
 	"syscall"
@@ -26,17 +27,17 @@ import (
 )
 
 type Srv struct {
-	Bin     string
-	Home    string
-	Models  string
-	Port    int
-	cmd     *exec.Cmd
-	LogPath string
-	exited  chan struct{}
-	exitErr error
-	Strace  []string // when set: strace arguments placed before the binary
-	Env     []string
-	hc      *http.Client
+	Bin      string
+	Home     string
+	Models   string
+	Port     int
+	cmd      *exec.Cmd
+	LogPath  string
+	exited   chan struct{}
+	exitErr  error
+	Strace   []string // when set: strace arguments placed before the binary
+	Env      []string
+	hc       *http.Client
 	weKilled atomic.Bool
 }
 
@@ -146,6 +147,7 @@ func (s *Srv) start() error {
 		s.hc.CloseIdleConnections()
 	}()
 	deadline := time.Now().Add(30 * time.Second)
+	foreign := 0
 	for time.Now().Before(deadline) {
 		select {
 		case <-s.exited:
@@ -153,12 +155,69 @@ func (s *Srv) start() error {
 		default:
 		}
 		if s.Version() {
-			return nil
+			// Another check running on this machine may have started its server on the same port between our
+			// probe and our server's bind; ours then exits with "address already in use" a moment later. Only a
+			// listening socket that belongs to the process group we started counts.
+			if s.ownsPort() {
+				return nil
+			}
+			foreign++
+			if foreign > 100 {
+				s.Kill()
+				return fmt.Errorf("address already in use: port %d is answered by a process this check did not start", s.Port)
+			}
 		}
 		time.Sleep(15 * time.Millisecond)
 	}
 	s.Kill()
 	return errors.New("server did not come up within 30 s")
+}
+
+// ownsPort reports whether the socket listening on s.Port is held by a process of the group started by s.
+func (s *Srv) ownsPort() bool {
+	b, err := os.ReadFile("/proc/net/tcp")
+	if err != nil {
+		return true // no /proc: cannot tell, keep the old behaviour
+	}
+	want := fmt.Sprintf("0100007F:%04X", s.Port)
+	inode := ""
+	for _, ln := range strings.Split(string(b), "\n") {
+		f := strings.Fields(ln)
+		if len(f) > 9 && f[1] == want && f[3] == "0A" {
+			inode = f[9]
+		}
+	}
+	if inode == "" {
+		return false
+	}
+	pg := s.cmd.Process.Pid
+	ents, _ := os.ReadDir("/proc")
+	for _, e := range ents {
+		pid, err := strconv.Atoi(e.Name())
+		if err != nil {
+			continue
+		}
+		st, err := os.ReadFile(fmt.Sprintf("/proc/%d/stat", pid))
+		if err != nil {
+			continue
+		}
+		// pid (comm) state ppid pgrp ...; comm may contain spaces and parentheses
+		rest := string(st)
+		if i := strings.LastIndexByte(rest, ')'); i >= 0 {
+			rest = rest[i+1:]
+		}
+		f := strings.Fields(rest)
+		if len(f) < 3 || f[2] != strconv.Itoa(pg) {
+			continue
+		}
+		fds, _ := os.ReadDir(fmt.Sprintf("/proc/%d/fd", pid))
+		for _, fd := range fds {
+			if l, err := os.Readlink(fmt.Sprintf("/proc/%d/fd/%s", pid, fd.Name())); err == nil && l == "socket:["+inode+"]" {
+				return true
+			}
+		}
+	}
+	return false
 }
 
 func (s *Srv) URL() string { return fmt.Sprintf("http://127.0.0.1:%d", s.Port) }
